@@ -438,10 +438,15 @@ def nat_sweep(seed, count):
                         msgs.append(f"{int(np.sum(f[i][idx[i]] == 0))} zero-volume grains were drawn")
                         break
                     if nn >= 2000 and M <= 300:
-                        cnt_ = np.bincount(idx[i], minlength=M) / nn
-                        sig = np.sqrt(f[i] * (1 - f[i]) / nn)
-                        if np.any(np.abs(cnt_ - f[i]) > 6 * sig + 1e-12):
-                            msgs.append(f"empirical draw frequencies deviate from the volumes by {np.abs(cnt_ - f[i]).max():.3e} (> 6 sigma)")
+                        # exact binomial tails (the normal approximation is wrong for rarely drawn grains): a count whose two-sided
+                        # tail probability is below 1e-10 per grain does not come from draws proportional to the volumes
+                        from scipy.stats import binom
+
+                        kcnt = np.bincount(idx[i], minlength=M)
+                        tail = np.minimum(binom.cdf(kcnt, nn, f[i]), binom.sf(kcnt - 1, nn, f[i]))
+                        if np.any(tail < 1e-10):
+                            g_ = int(np.argmin(tail))
+                            msgs.append(f"empirical draw frequencies are not proportional to the volumes: grain {g_} of volume {f[i][g_]:.3e} drawn {int(kcnt[g_])} times in {nn} (binomial tail {tail[g_]:.1e})")
                             break
                     if M >= 70000:
                         big = np.argsort(f[i])[-100:]
